@@ -11,9 +11,15 @@
 (* Trace_Cardinality.tla validates real executions.                            *)
 (*                                                                            *)
 (* attribute set : function Keys -> Nat, 0 = key absent                       *)
-(* cfg  : [limit, temp, insts : Seq Inst, views : Seq View]                    *)
-(* Inst : [name, kind, num, unit, desc, sn, sv, su]   (sn/sv/su = name,        *)
-(*         version and schema URL of the instrumentation scope = the Meter)    *)
+(* cfg  : [limit, readers : Seq Reader, insts : Seq Inst, views : Seq View]     *)
+(* Reader : [temp, sel]  sel = the reader's aggregation selector, a record     *)
+(*         kind -> "" (default) | drop | sum | last | hist | expo.  Every      *)
+(*         reader owns its own aggregators; the views are shared               *)
+(* Inst : [name, kind, num, unit, desc, sn, sv, su, cb]   (sn/sv/su = name,    *)
+(*         version and schema URL of the instrumentation scope = the Meter;    *)
+(*         cb = how an observable gets its callback: "opt" (WithXCallback) or  *)
+(*         "reg" (Meter.RegisterCallback), "" for synchronous instruments;     *)
+(*         the statement does not distinguish them)                            *)
 (* View : selection criteria, "" = not given:                                  *)
 (*           mname (exact name or pattern with * and ?), mkind, munit, mdesc,  *)
 (*           msn, msv, msu                                                     *)
@@ -38,7 +44,14 @@ SumKinds == {"counter", "updown", "ocounter", "oupdown"}
 DefaultAgg(kind) == CASE kind \in SumKinds -> "sum"
                       [] kind = "histogram" -> "hist"
                       [] kind \in {"gauge", "ogauge"} -> "last"
-Resolve(agg, kind) == IF agg \in {"", "default"} THEN DefaultAgg(kind) ELSE agg
+IsObs(kind) == kind \in {"ocounter", "oupdown", "ogauge"}
+(* WithAggregationSelector: the reader chooses the aggregation by instrument    *)
+(* kind unless a matching view passes one explicitly; AggregationDefault in a   *)
+(* view "ensures the default is used" whatever the reader selects               *)
+ReaderAgg(rd, kind) == IF rd.sel[kind] \in {"", "default"} THEN DefaultAgg(kind) ELSE rd.sel[kind]
+Resolve(agg, kind, rd) == CASE agg = "" -> ReaderAgg(rd, kind)
+                            [] agg = "default" -> DefaultAgg(kind)
+                            [] OTHER -> agg
 (* how the aggregator of a stream behaves over collection cycles:              *)
 (*   sum/last/hist : synchronous style, kept for the lifetime when cumulative, *)
 (*                   reset by every delta collection                           *)
@@ -102,16 +115,16 @@ Match(v, i) == /\ ~NoCriteria(v)
 (* Description, and Unit of the returned Stream and no Aggregation or          *)
 (* AttributeFilter are set."                                                   *)
 NonZero(x, alt) == IF x = "" THEN alt ELSE x
-StreamOf(v, i) == [name |-> NonZero(v.name, i.name), lname |-> Lower(NonZero(v.name, i.name)), desc |-> NonZero(v.desc, i.desc), unit |-> NonZero(v.unit, i.unit),
+StreamOf(v, i, rd) == [name |-> NonZero(v.name, i.name), lname |-> Lower(NonZero(v.name, i.name)), desc |-> NonZero(v.desc, i.desc), unit |-> NonZero(v.unit, i.unit),
                    kind |-> i.kind, num |-> i.num, sn |-> i.sn, sv |-> i.sv, su |-> i.su,
-                   agg |-> Resolve(v.agg, i.kind), filt |-> v.filt]
-DefaultStream(i) == [name |-> i.name, lname |-> Lower(i.name), desc |-> i.desc, unit |-> i.unit,
+                   agg |-> Resolve(v.agg, i.kind, rd), filt |-> v.filt]
+DefaultStream(i, rd) == [name |-> i.name, lname |-> Lower(i.name), desc |-> i.desc, unit |-> i.unit,
                      kind |-> i.kind, num |-> i.num, sn |-> i.sn, sv |-> i.sv, su |-> i.su,
-                     agg |-> DefaultAgg(i.kind), filt |-> NoFilter]
+                     agg |-> ReaderAgg(rd, i.kind), filt |-> NoFilter]
 (* every matching view yields a stream; no match -> the default stream *)
-InstStreams(cfg, i) ==
+InstStreams(cfg, rd, i) ==
   LET m == SelectSeq(cfg.views, LAMBDA v : Match(v, i))
-  IN IF Len(m) = 0 THEN <<DefaultStream(i)>> ELSE [j \in 1..Len(m) |-> StreamOf(m[j], i)]
+  IN IF Len(m) = 0 THEN <<DefaultStream(i, rd)>> ELSE [j \in 1..Len(m) |-> StreamOf(m[j], i, rd)]
 (* identity of a stream inside one Meter: names are case-insensitive; streams  *)
 (* (lname = the name in lower case, computed once per stream); streams         *)
 (* with one identity are one stream (one aggregator, every measurement counted *)
@@ -125,11 +138,11 @@ RKey(s) == [name |-> s.lname, desc |-> s.desc, unit |-> s.unit, num |-> s.num, a
             sn |-> s.sn, sv |-> s.sv, su |-> s.su]
 Dedup(seq) == FoldLeft(LAMBDA acc, s : IF \E j \in 1..Len(acc) : Id(acc[j]) = Id(s) THEN acc ELSE Append(acc, s),
                        <<>>, seq)
-AllStreams(cfg) == FlattenSeq([j \in 1..Len(cfg.insts) |-> InstStreams(cfg, cfg.insts[j])])
-(* one aggregator per stream identity, in order of creation *)
-Table(cfg) == Dedup(AllStreams(cfg))
-(* aggregators fed by instrument number i: each identity once (no duplication) *)
-Feeds(cfg, tab, i) == {t \in 1..Len(tab) : \E s \in Rng(InstStreams(cfg, cfg.insts[i])) : Id(s) = Id(tab[t])}
+AllStreams(cfg, rd) == FlattenSeq([j \in 1..Len(cfg.insts) |-> InstStreams(cfg, rd, cfg.insts[j])])
+(* per reader: one aggregator per stream identity, in order of creation *)
+Table(cfg, rd) == Dedup(AllStreams(cfg, rd))
+(* aggregators of reader rd fed by instrument number i: each identity once (no duplication) *)
+Feeds(cfg, rd, tab, i) == {t \in 1..Len(tab) : \E s \in Rng(InstStreams(cfg, rd, cfg.insts[i])) : Id(s) = Id(tab[t])}
 (* configurations on which statement, documentation and SDK specification are  *)
 (* silent (or allow several behaviours) are kept out of every driver:          *)
 (*  - two streams with one identity but different aggregation or filter        *)
@@ -138,17 +151,31 @@ Feeds(cfg, tab, i) == {t \in 1..Len(tab) : \E s \in Rng(InstStreams(cfg, cfg.ins
 (*  - a renaming view that selects by wildcard (the SDK "MAY fail fast")       *)
 (*  - a name criterion that matches an instrument only up to letter case       *)
 (*  - instruments without a name / Meter name, or with wildcard characters     *)
-InDomain(cfg) ==
-  LET all == AllStreams(cfg)
+(*  - observables that share an aggregator although they are different         *)
+(*    instruments must report through one multi-instrument callback ("reg"):    *)
+(*    the order of observations of separate callbacks is not specified          *)
+InDomainR(cfg, rd) ==
+  LET all == AllStreams(cfg, rd)
   IN /\ \A x, y \in 1..Len(all) : Id(all[x]) = Id(all[y]) =>
             (all[x].agg = all[y].agg /\ all[x].filt.on = all[y].filt.on /\ KeepSet(all[x].filt) = KeepSet(all[y].filt))
      /\ \A x \in 1..Len(all) : Compatible(all[x].agg, all[x].kind)
      /\ \A x, y \in 1..Len(all) : RKey(all[x]) = RKey(all[y]) => Id(all[x]) = Id(all[y])
+     /\ \A x, y \in 1..Len(cfg.insts) :
+          LET ix == cfg.insts[x]
+              iy == cfg.insts[y]
+          IN (ix # iy /\ IsObs(ix.kind) /\ IsObs(iy.kind)
+              /\ \E s \in Rng(InstStreams(cfg, rd, ix)), u \in Rng(InstStreams(cfg, rd, iy)) : Id(s) = Id(u))
+             => (ix.cb = "reg" /\ iy.cb = "reg")
+InDomain(cfg) ==
+     /\ Len(cfg.readers) >= 1
+     /\ \A r \in 1..Len(cfg.readers) : InDomainR(cfg, cfg.readers[r])
      /\ \A x \in 1..Len(cfg.views) : HasWild(cfg.views[x].mname) => cfg.views[x].name = ""
      /\ \A x \in 1..Len(cfg.views), y \in 1..Len(cfg.insts) :
             (cfg.views[x].mname # "" /\ Glob(Lower(cfg.views[x].mname), Lower(cfg.insts[y].name)))
                => Glob(cfg.views[x].mname, cfg.insts[y].name)
-     /\ \A y \in 1..Len(cfg.insts) : cfg.insts[y].name # "" /\ cfg.insts[y].sn # "" /\ ~HasWild(cfg.insts[y].name)
+     /\ \A y \in 1..Len(cfg.insts) :
+            /\ cfg.insts[y].name # "" /\ cfg.insts[y].sn # "" /\ ~HasWild(cfg.insts[y].name)
+            /\ cfg.insts[y].cb \in (IF IsObs(cfg.insts[y].kind) THEN {"opt", "reg"} ELSE {""})
 
 -----------------------------------------------------------------------------
 (* one aggregator: a set of cells, at most one per reported attribute set *)
@@ -199,8 +226,8 @@ MetricOf(st, temp, ag) ==
 MKey(m) == [name |-> m.name, desc |-> m.desc, unit |-> m.unit, num |-> m.num, agg |-> m.agg,
             sn |-> m.sn, sv |-> m.sv, su |-> m.su]
 (* what a collection returns: every stream that holds data; drop reports nothing *)
-Report(cfg, tab, ss) ==
-  {MetricOf(tab[t], cfg.temp, ss[t]) : t \in {u \in 1..Len(tab) : Mode(tab[u].agg, tab[u].kind) # "drop" /\ ss[u].cells # {}}}
+Report(temp, tab, ss) ==
+  {MetricOf(tab[t], temp, ss[t]) : t \in {u \in 1..Len(tab) : Mode(tab[u].agg, tab[u].kind) # "drop" /\ ss[u].cells # {}}}
 AfterCollect(st, temp, ag) ==
   LET m == Mode(st.agg, st.kind)
   IN CASE m \in {"sum", "last", "hist"} -> IF temp = "delta" THEN NewAgg ELSE ag
@@ -209,13 +236,12 @@ AfterCollect(st, temp, ag) ==
                                                  ELSE {}]
        [] m = "plast" -> NewAgg
        [] m = "drop" -> ag
-Reset(cfg, tab, ss) == [t \in 1..Len(tab) |-> AfterCollect(tab[t], cfg.temp, ss[t])]
+Reset(temp, tab, ss) == [t \in 1..Len(tab) |-> AfterCollect(tab[t], temp, ss[t])]
 
 (* one measurement on instrument i: delivered once to every aggregator it feeds *)
 ApplyF(lim, tab, fd, ss, a, v) ==
   [t \in 1..Len(tab) |-> IF t \in fd THEN Feed(lim, tab[t], ss[t], a, v) ELSE ss[t]]
-ApplyM(cfg, tab, ss, i, a, v) == ApplyF(cfg.limit, tab, Feeds(cfg, tab, i), ss, a, v)
-FeedMap(cfg, tab) == [i \in 1..Len(cfg.insts) |-> Feeds(cfg, tab, i)]
-ApplyAll(cfg, tab, fm, ss, ops) ==
-  FoldLeft(LAMBDA acc, o : ApplyF(cfg.limit, tab, fm[o.i], acc, o.attrs, o.v), ss, ops)
+FeedMap(cfg, rd, tab) == [i \in 1..Len(cfg.insts) |-> Feeds(cfg, rd, tab, i)]
+ApplyAll(lim, tab, fm, ss, ops) ==
+  FoldLeft(LAMBDA acc, o : ApplyF(lim, tab, fm[o.i], acc, o.attrs, o.v), ss, ops)
 =============================================================================
